@@ -706,7 +706,7 @@ def handle_settings(p):
 
     doc = p["doc"]
     if "calibration" in doc:
-        for f in doc["calibration"].get("target_data_path", []):
+        for f in list(doc["calibration"].get("target_data_path", [])) + list(doc["calibration"].get("weights_from_file") or []):
             if not Path(f).exists():
                 np.savetxt(f, np.ones((2, 3)))
     for name, vals in (p.get("files") or {}).items():
